@@ -96,7 +96,8 @@ Definition combine_checks (e : expr) : option expr :=
   end.
 
 (* removeIncDec.  matchOneWay: x.Op == op && lit(x.Y).Value == "1" && !(y.Op == op && lit(y.Y).Value == "1");
-   the literal's kind is not inspected, and there is NO hasFloats guard *)
+   the literal's kind is not inspected.  [remove_incdec_prefix] is the routine before commit 546af6d (no
+   hasFloats guard); [remove_incdec] is the current one. *)
 Definition is_incdec (o : binop) (e : expr) : bool :=
   match e with
   | EBinary o' _ (ELit _ s _) => binop_eqb o' o && String.eqb s "1"
@@ -110,7 +111,7 @@ Definition incdec_replace (lhs_op rhs_op repl : binop) (x y : expr) : option exp
   else if match_one_way rhs_op y x then Some (EBinary repl x (bin_left y))
   else None.
 
-Definition remove_incdec (e : expr) : option expr :=
+Definition remove_incdec_prefix (e : expr) : option expr :=
   match e with
   | EBinary OGt x y => incdec_replace OAdd OSub OGe x y
   | EBinary OGe x y => incdec_replace OSub OAdd OGt x y
@@ -118,11 +119,25 @@ Definition remove_incdec (e : expr) : option expr :=
   | EBinary OLe x y => incdec_replace OAdd OSub OLt x y
   | _ => None
   end.
+(* current: `x+1 > y` is not `x >= y` for floats *)
+Definition remove_incdec (hf : bool) (e : expr) : option expr :=
+  if hf then None else remove_incdec_prefix e.
 
-(* int64val: strconv.ParseInt(lit.Value, 10, 64) whatever the literal's kind or spelling *)
-Definition int64val (e : expr) : option Z :=
+(* int64val before commit 7e0e8ca: strconv.ParseInt(lit.Value, 10, 64) whatever the literal's kind or spelling *)
+Definition int64val_prefix (e : expr) : option Z :=
   match e with
   | ELit _ s _ => parse_int_base10 s
+  | _ => None
+  end.
+(* current: lit.Kind == token.INT and strconv.ParseInt(lit.Value, 0, 64): the literal is read the way the
+   compiler reads it (0x, 0o, 0b, legacy octal, '_'), within int64 *)
+Definition int64val (e : expr) : option Z :=
+  match e with
+  | ELit LInt s _ =>
+      match go_int_lit s with
+      | Some z => if (z <=? int64_max)%Z then Some z else None
+      | None => None
+      end
   | _ => None
   end.
 
@@ -142,14 +157,22 @@ Fixpoint table_find (tbl : list (binop * binop * Z * Z)) (lo ro : binop) (diff :
       if binop_eqb lo a && binop_eqb ro b && (diff =? d)%Z then Some delta else table_find r lo ro diff
   end.
 
+Definition or_else {A} (a : option A) (b : option A) : option A :=
+  match a with Some _ => a | None => b end.
+
+(* The traversal is written once, over the two routines that the fixes changed. *)
+Section Variant.
+  Variable incdec : bool -> expr -> option expr.   (* removeIncDec *)
+  Variable i64 : expr -> option Z.                 (* int64val *)
+
 (* foldRanges: guarded by hasFloats (issue #848); e.X / e.Y are *not* unparenthesised.
    Two sentinels pass isSafe/astequal (nil) but fail int64val(nil); one sentinel fails astequal. *)
-Definition fold_ranges (hf : bool) (e : expr) : option expr :=
+Definition fold_ranges_v (hf : bool) (e : expr) : option expr :=
   if hf then None
   else match e with
        | EBinary eo (EBinary lo lx ly) (EBinary ro rx ry) =>
            if side_effect_free lx && side_effect_free rx && expr_eqb lx rx then
-             match int64val ly, int64val ry with
+             match i64 ly, i64 ry with
              | Some c1, Some c2 =>
                  match eo with
                  | OLAnd =>
@@ -170,35 +193,63 @@ Definition fold_ranges (hf : bool) (e : expr) : option expr :=
        | _ => None
        end.
 
-Definition or_else {A} (a : option A) (b : option A) : option A :=
-  match a with Some _ => a | None => b end.
-
 (* the post function of simplifyBool: first applicable rule wins *)
-Definition rewrite_first (hf : bool) (e : expr) : option expr :=
+Definition rewrite_first_v (hf : bool) (e : expr) : option expr :=
   or_else (double_negation e)
   (or_else (negated_equals e)
   (or_else (invert_comparison hf e)
   (or_else (combine_checks e)
-  (or_else (remove_incdec e)
-           (fold_ranges hf e))))).
+  (or_else (incdec hf e)
+           (fold_ranges_v hf e))))).
 
-Definition rewrite1 (hf : bool) (e : expr) : expr :=
-  match rewrite_first hf e with Some e' => e' | None => e end.
+Definition rewrite1_v (hf : bool) (e : expr) : expr :=
+  match rewrite_first_v hf e with Some e' => e' | None => e end.
 
 (* astutil.Apply(x, nil, post): children first (their replacements are stored in the parent),
    then post on the node itself; a replacement is not revisited *)
-Fixpoint simp (hf : bool) (e : expr) {struct e} : expr :=
-  rewrite1 hf
+Fixpoint simp_v (hf : bool) (e : expr) {struct e} : expr :=
+  rewrite1_v hf
     match e with
     | EIdent _ _ | ELit _ _ _ => e
-    | EParen x => EParen (simp hf x)
-    | EUnary o x => EUnary o (simp hf x)
-    | EBinary o l r => EBinary o (simp hf l) (simp hf r)
-    | ECall f args => ECall f (map (simp hf) args)
-    | EIndex a i => EIndex (simp hf a) (simp hf i)
-    | ESliceAll a => ESliceAll (simp hf a)
+    | EParen x => EParen (simp_v hf x)
+    | EUnary o x => EUnary o (simp_v hf x)
+    | EBinary o l r => EBinary o (simp_v hf l) (simp_v hf r)
+    | ECall f args => ECall f (map (simp_v hf) args)
+    | EIndex a i => EIndex (simp_v hf a) (simp_v hf i)
+    | ESliceAll a => ESliceAll (simp_v hf a)
     end.
 
+
+(* the node with already simplified children, i.e. what the post function sees *)
+Definition rebuild_v (hf : bool) (e : expr) : expr :=
+  match e with
+  | EIdent _ _ | ELit _ _ _ => e
+  | EParen x => EParen (simp_v hf x)
+  | EUnary o x => EUnary o (simp_v hf x)
+  | EBinary o l r => EBinary o (simp_v hf l) (simp_v hf r)
+  | ECall f args => ECall f (map (simp_v hf) args)
+  | EIndex a i => EIndex (simp_v hf a) (simp_v hf i)
+  | ESliceAll a => ESliceAll (simp_v hf a)
+  end.
+
+(* [g] holds of every node as the post function sees it *)
+Fixpoint all_nodes_v (g : expr -> bool) (hf : bool) (e : expr) {struct e} : bool :=
+  g (rebuild_v hf e) &&
+  match e with
+  | EIdent _ _ | ELit _ _ _ => true
+  | EParen x | EUnary _ x | ESliceAll x => all_nodes_v g hf x
+  | EBinary _ l r => all_nodes_v g hf l && all_nodes_v g hf r
+  | ECall _ args => (fix go (l : list expr) : bool := match l with [] => true | x :: r => all_nodes_v g hf x && go r end) args
+  | EIndex a i => all_nodes_v g hf a && all_nodes_v g hf i
+  end.
+End Variant.
+
+(* ---- the current checker ---- *)
+Definition fold_ranges := fold_ranges_v int64val.
+Definition rewrite_first := rewrite_first_v remove_incdec int64val.
+Definition rewrite1 := rewrite1_v remove_incdec int64val.
+Definition simp := simp_v remove_incdec int64val.
+Definition rebuild := rebuild_v remove_incdec int64val.
 Definition simplify_bool (e : expr) : expr := simp (has_floats e) e.
 
 (* ---- go/printer (nodes.go: expr1, binaryExpr, cutoff, walkBinary) on the fragment, single line ---- *)
@@ -324,18 +375,13 @@ Fixpoint walk_exprs (e : expr) {struct e} : list string :=
       end
   end.
 
-(* ---- the guards under which the rewriting is behaviour-preserving (what the code lacks) ---- *)
-(* the node with already simplified children, i.e. what the post function sees *)
-Definition rebuild (hf : bool) (e : expr) : expr :=
-  match e with
-  | EIdent _ _ | ELit _ _ _ => e
-  | EParen x => EParen (simp hf x)
-  | EUnary o x => EUnary o (simp hf x)
-  | EBinary o l r => EBinary o (simp hf l) (simp hf r)
-  | ECall f args => ECall f (map (simp hf) args)
-  | EIndex a i => EIndex (simp hf a) (simp hf i)
-  | ESliceAll a => ESliceAll (simp hf a)
-  end.
+(* ---- the checker before the fixes 546af6d / 7e0e8ca, and the guards it lacked ---- *)
+Definition incdec_prefix (_ : bool) (e : expr) : option expr := remove_incdec_prefix e.
+Definition fold_ranges_prefix := fold_ranges_v int64val_prefix.
+Definition rewrite1_prefix := rewrite1_v incdec_prefix int64val_prefix.
+Definition simp_prefix := simp_v incdec_prefix int64val_prefix.
+Definition rebuild_prefix := rebuild_v incdec_prefix int64val_prefix.
+Definition simplify_bool_prefix (e : expr) : expr := simp_prefix (has_floats e) e.
 
 (* a literal bound whose base-10 reading is its Go value *)
 Definition decimal_lit (e : expr) : bool :=
@@ -348,16 +394,16 @@ Definition decimal_lit (e : expr) : bool :=
   | _ => false
   end.
 
-(* removeIncDec fires at this node only on non-float operands *)
+(* removeIncDec (pre-fix) fires at this node only on non-float operands *)
 Definition incdec_guard (e' : expr) : bool :=
-  match remove_incdec e' with
+  match remove_incdec_prefix e' with
   | Some _ => match e' with EBinary _ x _ => negb (is_float_ty (typeof x)) | _ => true end
   | None => true
   end.
 
-(* foldRanges fires at this node only on decimal bounds *)
+(* foldRanges (pre-fix) fires at this node only on decimal bounds *)
 Definition fold_guard (hf : bool) (e' : expr) : bool :=
-  match fold_ranges hf e' with
+  match fold_ranges_prefix hf e' with
   | Some _ =>
       match e' with
       | EBinary _ (EBinary _ _ ly) (EBinary _ _ ry) => decimal_lit ly && decimal_lit ry
@@ -366,15 +412,6 @@ Definition fold_guard (hf : bool) (e' : expr) : bool :=
   | None => true
   end.
 
-Fixpoint all_nodes (g : expr -> bool) (hf : bool) (e : expr) {struct e} : bool :=
-  g (rebuild hf e) &&
-  match e with
-  | EIdent _ _ | ELit _ _ _ => true
-  | EParen x | EUnary _ x | ESliceAll x => all_nodes g hf x
-  | EBinary _ l r => all_nodes g hf l && all_nodes g hf r
-  | ECall _ args => (fix go (l : list expr) : bool := match l with [] => true | x :: r => all_nodes g hf x && go r end) args
-  | EIndex a i => all_nodes g hf a && all_nodes g hf i
-  end.
-
-Definition no_float_incdec (e : expr) : bool := all_nodes incdec_guard (has_floats e) e.
-Definition decimal_bounds (e : expr) : bool := all_nodes (fold_guard (has_floats e)) (has_floats e) e.
+Definition all_nodes_prefix := all_nodes_v incdec_prefix int64val_prefix.
+Definition no_float_incdec (e : expr) : bool := all_nodes_prefix incdec_guard (has_floats e) e.
+Definition decimal_bounds (e : expr) : bool := all_nodes_prefix (fold_guard (has_floats e)) (has_floats e) e.
